@@ -141,7 +141,7 @@ fn decide(c: &Case, out: &mut CaseOut) -> Result<(), Fail> {
         out.evaluations += 1;
         // (c) nothing of the static pool is alive when an execution starts
         if l.live_at_start != live_base {
-            return fail(format!("execution {i} started with {} values of the static pool (thread-locals / lazy statics) of earlier executions still alive (negative = dropped twice)", l.live_at_start - live_base));
+            return fail(format!("execution {i} started with {} values of earlier executions (thread-locals, lazy statics, values captured by or living on the stacks of their tasks) still alive (negative = dropped twice)", l.live_at_start - live_base));
         }
         // (b) pristine initial world
         match &l.initial_world {
